@@ -133,7 +133,7 @@ Definition record_obs (b d1 d2 : url) : c07_obs :=
 
 Theorem model_observation_satisfies_spec b d1 d2 f1 f2 :
   wf_base b -> wf_ref d1 \/ wf_base d1 -> wf_ref d2 \/ wf_base d2 ->
-  c07_holds (mkCase (to_text b) (to_text d1) f1 (to_text d2) f2 (record_obs b d1 d2)) = true.
+  c07_holds (mkCase (to_text b) false (to_text d1) f1 (to_text d2) f2 (record_obs b d1 d2)) = true.
 Proof.
   intros Wb W1 W2. pose proof (navigate_url_wf b d1 Wb W1) as Wn1.
   pose proof (navigate_url_wf _ d2 Wn1 W2) as Wn2.
@@ -153,9 +153,9 @@ Qed.
 Theorem c07_model_on_texts b d1 d2 f1 f2 o :
   url_of_text (to_text b) = Some b -> url_of_text (to_text d1) = Some d1 ->
   url_of_text (to_text d2) = Some d2 ->
-  c07_model (mkCase (to_text b) (to_text d1) f1 (to_text d2) f2 o) = Some (record_obs b d1 d2).
+  c07_model (mkCase (to_text b) false (to_text d1) f1 (to_text d2) f2 o) = Some (record_obs b d1 d2).
 Proof.
-  intros Hb H1 H2. unfold c07_model. cbn [c_base c_ref1 c_ref2 c_as_url1 c_as_url2].
+  intros Hb H1 H2. unfold c07_model. cbn [c_base c_unrooted c_ref1 c_ref2 c_as_url1 c_as_url2].
   rewrite Hb, H1, (navigate_normal_form b _ d1 f1 H1 eq_refl).
   rewrite (navigate_normal_form _ _ d2 f2 H2 eq_refl). reflexivity.
 Qed.
